@@ -361,6 +361,10 @@ func (bridge *ExprBridge) evaluateStringConcatenation(expression string, data ma
 		} else {
 			// 处理字段引用
 			if value, exists := data[part]; exists {
+				if value == nil {
+					// NULL 操作数：a + NULL 为 NULL（无论是数值相加还是字符串拼接），而不是拼成 ""
+					return nil, nil
+				}
 				strValue := cast.ToString(value)
 				result.WriteString(strValue)
 			} else {
